@@ -87,6 +87,20 @@ claim('C03', 'who-may-write + guard rules on the acknowledgment frontier, proven
       'rustc front end + MIR; mirfacts.',
       'DESIGN.md section 4 C03')
 
+claim('C02', 'handler-completeness, drain-until-empty and timer re-arm pairing rules (edge cuts on MIR); role-pair comparison normalisation shared with C20',
+      'Convergence over fault schedules is NOT decided. Decided structural necessary conditions: a received ACKNACK always reaches Writer::handle_ack_nack of the writer it names '
+      '(channel drained until empty); the Heartbeat and CacheCleaning arms always re-arm, the repair arms re-arm exactly while repair is pending; heartbeats are suppressed and repair '
+      'switched off only under last-written < acked-before (for all readers); repair switches on with its timer armed; the reader answers every informative or non-final HEARTBEAT.',
+      'rustc front end + MIR; mirfacts; mio timer semantics.',
+      'DESIGN.md section 4 C02')
+claim('C04', 'guard dominance (edge cuts), provenance and who-may-prune rules on MIR; sibling consistency of the retention fold',
+      'Decides: a single-reader sample is emitted only under g == target and all other readers get a pending GAP; every HEARTBEAT advertises (history first_seq, last_seq); '
+      'every requested sequence number is answered by the requested DATA or a GAP that is then sent, and marked sent only after its emission; the requested set is pruned only below '
+      'the ACKNACK base or the history floor; the retention fold ranges over reliable proxies only and treats "no reliable reader" as everything acknowledged. '
+      'Retention counts over arbitrary interleavings are NOT decided.',
+      'rustc front end + MIR; mirfacts; BTreeSet semantics (insert => non-empty).',
+      'DESIGN.md section 4 C04')
+
 _pending = 'check not built yet in this revision (static rules designed in DESIGN.md section 4; implementation in progress)'
 for _p in ['C01', 'C02', 'C03', 'C04', 'C05', 'C06', 'C08', 'C09', 'C10', 'C11', 'C12', 'C14', 'C15', 'C16', 'C17', 'C18', 'C19', 'C20']:
     if _p not in CHECKS:
